@@ -12,4 +12,10 @@ PINS = [
  ("c07_filter_bfs_pfs", "wlq_exhaustive", "with a pure filter: the recorded tree consists of accepted edges only and the visited nodes are exactly those reachable through accepted edges"),
  ("c07_filter_dfs", "dfs_exhaustive", "depth-first: same"),
  ("c07_filter_orderings", "order_edges_tree", "orderings: only accepted edges, exactly the nodes reachable through accepted edges"),
+ ("c07_filter_path_bfs_pfs", "wlq_path_sound", "with a target: every edge of a returned breadth-/priority-first path is an accepted stored edge (IsPath = chain of good_edge)"),
+ ("c07_filter_path_dfs", "dfs_path_sound", "depth-first path: same"),
+ ("c07_filter_unreachable_bfs_pfs", "wlq_path_complete", "None only if the target is unreachable in the graph of ACCEPTED edges (reachability is decided there only)"),
+ ("c07_filter_unreachable_dfs", "dfs_path_complete", "depth-first: same"),
+ ("c07_filter_cycle_bfs_pfs", "wlq_cycle_sound", "every edge of a returned cycle is an accepted stored edge"),
+ ("c07_filter_cycle_dfs", "dfs_cycle_sound", "depth-first cycle: same"),
 ]
